@@ -326,7 +326,40 @@ func ComputeStateKeyWithWord(nfaStates []nfa.StateID, isFromWord bool) StateKey 
 // and match delay flag. With 1-byte match delay, the same set of NFA states can
 // produce both a match and non-match DFA state depending on whether the SOURCE
 // state contained an NFA match state. This function distinguishes them in the cache.
+//
+// The key is order-INsensitive (the states are sorted before hashing), so it must
+// not be used to identify DFA states during determinization: see ComputeOrderedStateKey.
 func ComputeStateKeyWithWordAndMatch(nfaStates []nfa.StateID, isFromWord bool, isMatch bool) StateKey {
+	if len(nfaStates) == 0 {
+		return hashStateKey(nil, isFromWord, isMatch)
+	}
+
+	// Sort NFA states for canonical ordering
+	// This ensures {1,2,3} and {3,2,1} produce the same key
+	sorted := make([]nfa.StateID, len(nfaStates))
+	copy(sorted, nfaStates)
+	sortStateIDs(sorted)
+
+	return hashStateKey(sorted, isFromWord, isMatch)
+}
+
+// ComputeOrderedStateKey computes the cache key of a DFA state: a hash of the NFA
+// states IN THE GIVEN ORDER plus the word context and the match delay flag.
+//
+// The order of the NFA states inside a DFA state is their thread priority
+// (insertion order of the epsilon closure). determinize depends on it: with
+// break-at-match, every NFA state that comes after the first Match state is
+// dropped, which is what implements leftmost-first semantics. Two DFA states with
+// the same members in a different order therefore have different transitions and
+// must not share a cache entry (Rust regex-automata identifies a lazy DFA state by
+// the exact sequence of NFA state IDs for the same reason). Keying on the sorted
+// set made the first ordering that reached the cache win for all later orderings.
+func ComputeOrderedStateKey(nfaStates []nfa.StateID, isFromWord bool, isMatch bool) StateKey {
+	return hashStateKey(nfaStates, isFromWord, isMatch)
+}
+
+// hashStateKey hashes the NFA states in the given order with the state flags (FNV-1a).
+func hashStateKey(nfaStates []nfa.StateID, isFromWord bool, isMatch bool) StateKey {
 	if len(nfaStates) == 0 {
 		// Encode (isFromWord, isMatch) into 2 bits for empty states
 		var key StateKey
@@ -339,13 +372,6 @@ func ComputeStateKeyWithWordAndMatch(nfaStates []nfa.StateID, isFromWord bool, i
 		return key
 	}
 
-	// Sort NFA states for canonical ordering
-	// This ensures {1,2,3} and {3,2,1} produce the same key
-	sorted := make([]nfa.StateID, len(nfaStates))
-	copy(sorted, nfaStates)
-	sortStateIDs(sorted)
-
-	// Hash the sorted states using FNV-1a
 	h := fnv.New64a()
 
 	// Include isFromWord and isMatch in the hash FIRST to distinguish states
@@ -358,7 +384,7 @@ func ComputeStateKeyWithWordAndMatch(nfaStates []nfa.StateID, isFromWord bool, i
 	}
 	_, _ = h.Write([]byte{flags})
 
-	for _, sid := range sorted {
+	for _, sid := range nfaStates {
 		// Write each StateID as 4 bytes (uint32)
 		// hash.Hash.Write never returns an error per documentation
 		_, _ = h.Write([]byte{
